@@ -2,8 +2,32 @@
 from sprops_main import *
 
 
+def confirm_merged(check, r):
+    """merged shapes: the two components get the solver's delays where usable, the evaluation time is tried before / between / after them"""
+    shape = r['shape']
+    nf = len(SUBJECT_FIELDS[shape[0]])
+    mask = ''.join('1' if any(shape[2][i][k] for i in range(shape[1])) else '0' for k in range(nf))
+    cases = []
+    mvs = [x for x in r['sat'] if x and 'kind' not in x][:2] or [{}]
+    for mv in mvs:
+        d1 = bits2f32(mv.get('delay', 0)); d2 = bits2f32(mv.get('delay_2', 0)); tt = bits2f32(mv.get('time', 0))
+        cands = []
+        if 0 <= d1 < 1e6 and 0 <= d2 < 1e6 and 0 <= tt < 1e6: cands.append((d1, d2, tt))
+        cands += [(0.0, 2.0, 1.0), (2.0, 0.0, 1.0), (1.0, 3.0, 2.0), (0.5, 0.5, 0.25), (0.0, 0.0, 0.5)]
+        for a, b, t in cands:
+            comps = ['%08x;%08x;none;false;%s' % (f32bits(1.5), f32bits(a), mask), '%08x;%08x;none;false;%s' % (f32bits(2.5), f32bits(b), mask)]
+            cases.append({'kind': 'merged', 'want': 'purity', 'comps': comps, 'time': '%08x' % f32bits(t)})
+    for case, nat in zip(cases, run_replay(cases, 'dev', 'replay_tl')):
+        if nat.get('mismatch'):
+            check.report_violation(f'merged_{shape[0]}_N{shape[1]}', None, f'MergedTimeline of two derive timelines animating fields {mask}: {nat["detail"]}', case); return True
+    check.inconclusive.append(f'C09 counterexample for merged shape {shape} did not reproduce natively')
+    return False
+
+
 def confirm(check, r):
     shape = r['shape']
+    if len(shape) > 5:
+        return confirm_merged(check, r)
     structural_fail = [x for x in r['sat'] if x and x.get('kind') == 'structural']
     cases = []
     # witnesses of the solver (keyframes + abstract position realised as a concrete timing and time + last start value)
